@@ -20,6 +20,8 @@ type C08Plan struct {
 	Hist       *hist.Plan `json:"hist"`
 	ExtBatch   int        `json:"extBatch"`   // batch size of the interleaved walk (>=1)
 	Extensions []int      `json:"extensions"` // number of new tip headers ingested after page i of that walk
+	ReorgBatch int        `json:"reorgBatch"` // final step: batch size of the page whose key is made stale by a reorganisation
+	ReorgDepth int        `json:"reorgDepth"` // ... and how far below the key's height the overtaking header forks
 	MaxBatch   int        `json:"maxBatch"`   // 0 = all batch sizes 1..L+2; otherwise sample up to this many sizes (long chains)
 }
 
@@ -241,7 +243,51 @@ func runC08(p *C08Plan) (*stats.Case, error) {
 	if pg > maxPages {
 		maxPages = pg
 	}
+	// a reorganisation between two pages: the key handed out with a page belongs to a header that is STALE by the time
+	// the client comes back with it => 409, as for any other stale key (and the continuation, had the key stayed on the
+	// longest chain, as usual)
+	reorgBetween := false
+	if path := r.T.LongestPath(); len(path) >= 3 {
+		rb := 2 + p.ReorgBatch%(len(path)-2) // 2..len-1: the page ends at height >= 1 and below the tip
+		_, pr, err := getPage(r, fmt.Sprint(rb), "")
+		if err != nil || pr == nil || pr.Page.LastEvaluatedKey == "" {
+			return nil, fmt.Errorf("reorg step: first page with batch %d of a chain of %d: %v %+v", rb, len(path), err, pr)
+		}
+		key := pr.Page.LastEvaluatedKey
+		keyHeight := pr.Content[len(pr.Content)-1].BlockHeight
+		// a much heavier header forking below the key's height overtakes the chain
+		forkParent := path[int(keyHeight)-1-p.ReorgDepth%int(keyHeight)]
+		h := model.Header{Version: 1, Prev: forkParent.Hash, Merkle: hist.MerkleOf(2_000_000), Timestamp: 1700000000, Bits: 0x1800ffff, Nonce: 7}
+		res := r.Add(h)
+		out, _ := r.T.Submit(h)
+		if res.Class != "stored" || out != model.Stored {
+			return nil, fmt.Errorf("reorg step: the forking header was not stored: %v %v", res.Class, res.Err)
+		}
+		keyNowStale := true
+		for _, n := range r.T.LongestPath() {
+			if model.HashStr(n.H.Merkle) == key {
+				keyNowStale = false
+			}
+		}
+		resp, pr2, err := getPage(r, "3", key)
+		if err != nil {
+			return nil, err
+		}
+		if keyNowStale {
+			reorgBetween = true
+			if resp.Code != 409 || !isStructured4xx(resp) {
+				return nil, fmt.Errorf("a reorganisation made the header of the last page's key (height %d) STALE; continuing with that key answered %d %s, expected a 409 conflict error", keyHeight, resp.Code, resp.Body)
+			}
+		} else if pr2 == nil {
+			return nil, fmt.Errorf("reorg step: key still on the longest chain but the continuation answered %d %s", resp.Code, resp.Body)
+		}
+		// and complete walks of the new longest chain still work
+		if _, err := walk(r, 2, nil); err != nil {
+			return nil, fmt.Errorf("after the reorganisation: %w", err)
+		}
+	}
 	cl := histClasses(p.Hist, r.T, 0, 0, 0)
+	cl["with_reorg_between_pages"] = b2i(reorgBetween)
 	cl["walks"] = int64(len(sizes) + 1)
 	cl["with_stale_sibling_at_listed_height"] = b2i(staleSibling)
 	cl["with_walk_ge3_pages"] = b2i(maxPages >= 3)
@@ -262,6 +308,8 @@ var propC08 = Prop[*C08Plan]{
 		}
 		p.Hist = hist.Gen(t, o)
 		p.ExtBatch = rapid.IntRange(1, 5).Draw(t, "extb")
+		p.ReorgBatch = rapid.IntRange(0, 40).Draw(t, "reorgb")
+		p.ReorgDepth = rapid.IntRange(0, 5).Draw(t, "reorgd")
 		n := rapid.IntRange(0, 4).Draw(t, "next")
 		for i := 0; i < n; i++ {
 			p.Extensions = append(p.Extensions, rapid.IntRange(0, 3).Draw(t, "ext"))
